@@ -232,6 +232,111 @@ def gen_case(rng, i, thorough=False):
                 starts=starts, perturb=perturb, wrapper=wrapper)
 
 
+# radii with lattice points EXACTLY on the ellipse (Pythagorean): whether such a pixel belongs to the
+# mask is decided by a floating-point `<= 1` in every mask builder of trackpy.masks
+BIG_RADII_2D = [[5, 5], [10, 10], [13, 13], [13, 13], [15, 15], [17, 17], [20, 20], [25, 25], [26, 26],
+                [13, 26], [26, 13], [5, 13], [13, 5], [10, 13], [25, 13]]
+
+
+def gen_bigmask(rng, i, thorough):
+    """one feature, a LARGE mask (diameter 11 ... 53), brightness on the pixels that lie exactly on
+    the ellipse: every column of the row must come from ONE mask"""
+    if i % 8 == 7:
+        radius = rng.choice([[13, 13, 13], [5, 13, 13], [13, 5, 5]] if thorough else [[5, 13, 5], [5, 5, 13]])
+    else:
+        radius = list(rng.choice(BIG_RADII_2D))
+    nd = len(radius)
+    shape = [2 * r + 1 + rng.choice([0, 2, 4, 7]) for r in radius]
+    centre = [rng.randint(r, s - 1 - r) for r, s in zip(radius, shape)]
+    img = np.zeros(shape, dtype=np.int64)
+    grids = np.meshgrid(*[np.arange(s) for s in shape], indexing="ij")
+    P = 1
+    for r in radius:
+        P *= r * r
+    q = sum((g - c) ** 2 * (P // (r * r)) for g, c, r in zip(grids, centre, radius))
+    on = np.argwhere(q == P)
+    near = np.argwhere((q < P) & (q > P * 0.8))
+    img[q <= P] = rng.choice([0, 1, 3])
+    # a core that keeps the centroid near the centre (so the mask does not move), then weight on the rim
+    core = rng.choice([50, 400, 3000])
+    img[tuple(centre)] = core
+    for idx in on:
+        if rng.random() < 0.7:
+            img[tuple(idx)] = rng.randint(1, max(2, core // 10))
+    for idx in near[:: max(1, len(near) // 12)]:
+        if rng.random() < 0.5:
+            img[tuple(idx)] = rng.randint(1, max(2, core // 20))
+    raw = img + rng.choice([0, 1, 5])
+    return dict(stream="bigmask", shape=shape, radius=radius, centre=centre, max_iter=rng.choice([1, 3, 10]),
+                img=[int(v) for v in img.ravel()], raw=[int(v) for v in raw.ravel()],
+                dtype=rng.choice(["uint16", "int64", "float64"]), n_on=int(len(on)))
+
+
+def run_bigmask_case(ctx, inp):
+    """self-consistency at mask sizes the exact model is not asked about: each engine's row must be
+    the measurement of ONE (integer centre, mask) pair, the mask being trackpy's own binary_mask, the
+    exact ellipse or the float ellipse - whichever, but the same for every column; engines agree."""
+    import trackpy.refine.center_of_mass as com
+    from trackpy.masks import binary_mask
+    res = Result()
+    shape, radius, nd = inp["shape"], inp["radius"], len(inp["shape"])
+    iso = len(set(radius)) == 1
+    nsize = 1 if iso else nd
+    img64 = np.array(inp["img"], dtype=np.int64).reshape(shape)
+    raw64 = np.array(inp["raw"], dtype=np.int64).reshape(shape)
+    img, raw = img64.astype(inp["dtype"]), raw64.astype(inp["dtype"])
+    coords = np.array([inp["centre"]], dtype=float)
+    res.nontrivial = inp["n_on"] > 0
+    res.stat("bigmask_cases_oracle_only")
+    res.stat("bigmask_%dd" % nd)
+    sig0 = dict(stream="bigmask", radius="x".join(map(str, radius)))
+    grids = np.meshgrid(*[np.arange(-r, r + 1, dtype=float) for r in radius], indexing="ij")
+    masks = [("library", np.asarray(binary_mask(tuple(radius), nd), dtype=bool)),
+             ("exact", exact_mask(radius)),
+             ("float", sum((g / r) ** 2 for g, r in zip(grids, radius)) <= 1)]
+    if not (masks[0][1] == masks[1][1]).all():
+        res.stat("bigmask_library_mask_not_exact_ellipse")
+    rows = {}
+    for eng in ("python", "numba"):
+        if eng == "numba" and nd == 3 and max(radius) > 5 and min(radius) > 5:
+            continue                                     # interpreted 3-D kernel: minutes
+        try:
+            r = com.refine_com_arr(raw.copy(), img.copy(), tuple(radius), coords.copy(),
+                                   max_iterations=inp["max_iter"], engine=eng, characterize=True)
+        except Exception as e:
+            res.violation("property-violation", "refine_com_arr(engine=%r) raised %s: %s"
+                          % (eng, type(e).__name__, str(e)[:200]),
+                          signature=dict(sig0, what="engine-raises", engine=eng))
+            return res
+        rows[eng] = np.asarray(r, dtype=float)[0]
+    if len(rows) == 2:
+        es = abs(float(rows["python"][nd])) / max(1e-6, float(rows["python"][nd])
+                                                  - float(rows["python"][nd + nsize + 2]) + 1e-6)
+        bad = cmp_rows(rows["python"], rows["numba"], nd, nsize, True, a_sq=False, b_sq=False,
+                       escale=es if nd == 2 else 1.0)
+        if bad:
+            res.violation("property-violation", "python and numba engines differ in %s (radius %s)"
+                          % (bad, radius), impl={k: v.tolist() for k, v in rows.items()},
+                          signature=dict(sig0, what="engines-differ", columns=bad))
+    for eng, row in rows.items():
+        whys = []
+        for name, mk in masks:
+            c, why = find_mask_centre(img64, raw64, radius, shape, row, True, mask=mk)
+            if c is not None:
+                res.stat("bigmask_row_is_%s_mask" % name)
+                break
+            whys.append("%s mask: %s" % (name, why))
+        else:
+            res.violation("property-violation",
+                          "engine %s, radius %s: the row is not the measurement of one mask (%s)"
+                          % (eng, radius, "; ".join(whys)), impl=row.tolist(),
+                          signature=dict(sig0, what="not-a-mask-measurement", engine=eng))
+    if res.nontrivial and not res.viol:
+        res.sample = dict(stream="bigmask", radius=radius, shape=shape, pixels_on_ellipse=inp["n_on"],
+                          python=rows["python"].tolist())
+    return res
+
+
 def gen_cases(ctx):
     for inp in ctx.corpus():
         yield inp
@@ -249,6 +354,8 @@ def gen_cases(ctx):
         inp = gen_case(ctx.rng("refine", i), i, ctx.thorough)
         if inp["starts"]:
             yield inp
+    for i in range(ctx.n(40, 400)):
+        yield gen_bigmask(ctx.rng("bigmask", i), i, ctx.thorough)
 
 
 # ------------------------------------------------------------------------------------------
@@ -277,9 +384,10 @@ def close(a, b, scale=1.0):
     return abs(a - b) <= TOL * max(scale, abs(a), abs(b))
 
 
-def measure_at(img, raw, radius, c):
+def measure_at(img, raw, radius, c, mask=None):
     """oracle measurements (exact) with the mask centred at integer c; None if black"""
-    mask = exact_mask(radius)
+    if mask is None:
+        mask = exact_mask(radius)
     rect = tuple(slice(ci - r, ci + r + 1) for ci, r in zip(c, radius))
     nb = img[rect] * mask
     m = int(nb.sum())
@@ -295,14 +403,15 @@ def measure_at(img, raw, radius, c):
     return dict(pos=pos, mass=m, rg2=rg2, signal=int(nb.max()), raw=int((raw[rect] * mask).sum()))
 
 
-def find_mask_centre(img, raw, radius, shape, row, characterize):
+def find_mask_centre(img, raw, radius, shape, row, characterize, mask=None):
     """search every integer centre whose mask box is inside the image and could have the reported
     position as centroid; return (centre, None) or (None, reason)"""
     nd = len(radius)
     pos = [float(v) for v in row[:nd]]
     if any(math.isnan(p) for p in pos):
         return None, "position is NaN"
-    mask = exact_mask(radius)
+    if mask is None:
+        mask = exact_mask(radius)
     ranges = []
     for p, r, s in zip(pos, radius, shape):
         lo = max(r, int(math.ceil(p - r - 1e-6)))
@@ -314,7 +423,7 @@ def find_mask_centre(img, raw, radius, shape, row, characterize):
         m = int((img[rect] * mask).sum())
         if m == 0 or not close(row[nd], m):
             continue
-        o = measure_at(img, raw, radius, c)
+        o = measure_at(img, raw, radius, c, mask)
         if not all(close(a, b) for a, b in zip(pos, o["pos"])):
             continue
         if not characterize:
@@ -419,6 +528,8 @@ def expected_kernel(nd, characterize, iso):
 
 
 def run_case(ctx, inp):
+    if inp.get("stream") == "bigmask":
+        return run_bigmask_case(ctx, inp)
     import pandas as pd
     import trackpy.refine.center_of_mass as com
     from trackpy.masks import binary_mask
